@@ -392,7 +392,14 @@ type parseIn struct {
 func runParse(raw json.RawMessage) interface{} {
 	var in parseIn
 	must(json.Unmarshal(raw, &in))
-	if len(in.Tree.Cmds) == 0 || len(in.Words) == 0 {
+	invalid := len(in.Tree.Cmds) == 0 || len(in.Words) == 0
+	for i, c := range in.Tree.Cmds {
+		// a command's parent comes before it (the root has none): anything else is no tree
+		if (i == 0 && c.Parent >= 0) || (i > 0 && (c.Parent < 0 || c.Parent >= i)) {
+			invalid = true
+		}
+	}
+	if invalid {
 		// not a case (the shrinker tries such inputs): nothing to decide
 		return map[string]interface{}{"export": exportDoc{}, "panic": "", "runs": []interface{}{}}
 	}
